@@ -271,7 +271,7 @@ Proof.
       destruct (rep && (f_len f <=? max_buffered)).
       * eapply same_out_trans; [exact H3|]. unfold reader_dies. same_out_tac.
       * eapply same_out_trans; [exact H3|]. eapply same_out_trans; [apply run_handler_same_out|].
-        unfold reader_dies. same_out_tac.
+        unfold eof_after_dispatch, reader_dies. same_out_tac.
   - (* ConnFirst: the write loop starts; before that it held nothing *)
     cbn [step]. unfold step_conn_first. destruct (phase s) eqn:Eph; try assumption.
     assert (Hw : writer s = WNone) by (apply (ai_phase s Hack); rewrite Eph; reflexivity).
